@@ -124,7 +124,12 @@ impl<'a> Sink<'a> {
             Err(p) => {
                 self.faults += 1;
                 let c = classify(p);
-                self.survivable = c == "user" && matches!(op, Op::Crash { cmp: 1, .. });
+                // (comparison fuses, and callback fuses of the operations whose callbacks the crash model covers)
+                self.survivable = c == "user" && match op {
+                    Op::Crash { cmp: 1, .. } => true,
+                    Op::Crash { cmp: 0, op, .. } => matches!(**op, Op::ChangePriorityBy(..) | Op::PopIf(..) | Op::Extend { .. } | Op::FromIter { .. }),
+                    _ => false,
+                };
                 // after an injected fault the white-box state is part of the observation (C10): read it through the hook
                 let st = if matches!(op, Op::Crash { .. }) {
                     catch_unwind(AssertUnwindSafe(|| format!("{} {}", q.kind().name(), q.snapshot_core()))).unwrap_or_else(|_| "-".into())
@@ -922,15 +927,22 @@ pub fn crash_mirror_stream<H: BuildHasher + Default + Clone>(sink: &mut Sink, rn
             cands.extend([Op::PopMin, Op::PopMax, Op::PeekMax, Op::PopIf(1, w, true), Op::PopIf(1, w, false), Op::PopIf(2, w, true), Op::PopIf(2, w, false)]);
         }
         let op = r.pick(&cands).clone();
-        let kc = {
+        let (kc, cbc) = {
             let mut q = q0.clone_q();
             let c0 = cmp_count();
+            let b0 = CBCOUNT.with(|c| c.get());
             let _ = catch_unwind(AssertUnwindSafe(|| apply(&mut q, &op, Lookup::Owned)));
-            cmp_count() - c0
+            (cmp_count() - c0, CBCOUNT.with(|c| c.get()) - b0)
         };
         drop(q0);
-        let mut ks: Vec<u64> = (1..=kc.min(max_k)).collect();
-        if kc > max_k { ks.push(kc); ks.push(r.range(max_k, kc)); }
+        // fault points: (fuse kind, ordinal) — the k-th comparison, and for the operations whose callbacks the model
+        // covers (setter, pop_if predicates, source iterators) the k-th callback
+        let mut ks: Vec<(u8, u64)> = (1..=kc.min(max_k)).map(|k| (1u8, k)).collect();
+        if kc > max_k { ks.push((1, kc)); ks.push((1, r.range(max_k, kc))); }
+        if matches!(op, Op::ChangePriorityBy(..) | Op::PopIf(..) | Op::Extend { .. } | Op::FromIter { .. }) {
+            ks.extend((1..=cbc.min(max_k)).map(|k| (0u8, k)));
+            if cbc > max_k { ks.push((0, cbc)); ks.push((0, r.range(max_k, cbc))); }
+        }
         if cont > 0 && !ks.is_empty() {
             // post-crash histories: one or two fault points per case, then the surviving queue goes on being used
             let a = *r.pick(&ks);
@@ -940,7 +952,7 @@ pub fn crash_mirror_stream<H: BuildHasher + Default + Clone>(sink: &mut Sink, rn
         // what the surviving queue is used for: every class of operation, iterators (C13) and further faults more often
         let pf_cont = Profile { weights: weights_with(&[("serde_rt", 0), ("deser", 0), ("capacity", 0), ("clone", 0), ("eq", 0), ("convert", 0),
             ("sorted_iter", 60), ("sorted_vec", 30), ("iter", 40), ("into_iter", 30), ("drain", 20), ("len", 30), ("into_vec", 15)]), ..pf.clone() };
-        for k in ks {
+        for (fk, k) in ks {
             if sink.full() { break; }
             if !sink.case(kind) { continue; }
             let mut q: AnyQ<H> = AnyQ::new(kind);
@@ -949,14 +961,16 @@ pub fn crash_mirror_stream<H: BuildHasher + Default + Clone>(sink: &mut Sink, rn
                 if !sink.step(&mut q, p, Lookup::Owned) { ok = false; break; }
             }
             if !ok { continue; }
-            let mut alive = sink.step(&mut q, &Op::Crash { cmp: 1, k, op: Box::new(op.clone()) }, Lookup::Owned) || sink.survivable;
-            let mut rc = r.fork(1000 + k);
+            let mut alive = sink.step(&mut q, &Op::Crash { cmp: fk, k, op: Box::new(op.clone()) }, Lookup::Owned) || sink.survivable;
+            let mut rc = r.fork(1000 + k + 500 * fk as u64);
             for _ in 0..cont {
                 if !alive { break; }
                 let mut o = gen_op(&mut rc, &q, &pf_cont);
                 if matches!(o, Op::IterMut { forget: true, .. } | Op::Drain { forget: true, .. }) { continue; }
                 // (the operations the crash model mirrors; `iter_mut` only with primitive calls, so not here)
-                if rc.chance(1, 6) && matches!(o, Op::Push(_) | Op::PushIncrease(_) | Op::PushDecrease(_) | Op::ChangePriority(..) | Op::ChangePriorityBy(..) | Op::Remove(_)
+                if rc.chance(1, 12) && matches!(o, Op::ChangePriorityBy(..) | Op::PopIf(..) | Op::Extend { .. } | Op::FromIter { .. }) {
+                    o = Op::Crash { cmp: 0, k: rc.range(1, 4), op: Box::new(o) };
+                } else if rc.chance(1, 6) && matches!(o, Op::Push(_) | Op::PushIncrease(_) | Op::PushDecrease(_) | Op::ChangePriority(..) | Op::ChangePriorityBy(..) | Op::Remove(_)
                     | Op::Pop | Op::PopMin | Op::PopMax | Op::PeekMax | Op::PopIf(..) | Op::RetainMut(_) | Op::Extend { .. } | Op::FromVec(_) | Op::FromIter { .. }) {
                     o = Op::Crash { cmp: 1, k: rc.range(1, 6), op: Box::new(o) };
                 }
